@@ -114,10 +114,17 @@ theorem disabled_mem (outs : List String) :
 /-! ### foreach -/
 
 open Arca.Model.ForeachStep in
-theorem foreach_paths_accepted : ∀ p ∈ foreachPaths, foreachAcceptsRelaxed p.2 = true := by decide
+theorem foreach_paths_accepted : ∀ p ∈ foreachPaths, foreachAccepts p.2 = true := by decide
 
 open Arca.Model.ForeachStep in
-theorem foreach_strict_rejects_closed_waiting_execute :
-    foreachAccepts (fpath [enterExecute, Arca.Model.ForeachStep.closedEarly "outputs" true]) = false := by decide
+theorem foreach_old_lifecycle_rejects_closed_waiting_execute :
+    foreachAcceptsBeforeExecuteClosed (fpath [enterExecute, Arca.Model.ForeachStep.closedEarly "outputs" true]) = false := by
+  decide
+
+/-- the regenerated foreach lifecycle is the old one plus exactly the edge `execute -> closed` (completion-and) -/
+theorem foreach_lifecycle_change :
+    Arca.Gen.foreachStages = Arca.Model.ForeachStep.foreachStagesBeforeExecuteClosed.map (fun r =>
+      if r.id = "execute" then { r with next := ("closed", Arca.Model.Dep.cand) :: r.next } else r) := by
+  decide
 
 end Arca.Proofs.PluginTraces
